@@ -154,6 +154,7 @@ let handle = function
   | ["datetime"; sz; _fmt; formatted] -> show (x_datetime sc (n_of_dec sz) (unhex formatted))
   | ["snprintf"; sz; text] -> show (x_snprintf (n_of_dec sz) (unhex text))
   | ["spawns"; ppid; tbl; arg] -> show (x_spawns sc (n_of_dec ppid) (table tbl) (unhex arg))
+  | ["cfgload"; ini] -> show (x_cfgload sc (unhex ini))
   | ["cgroup"; sz; arg; content] -> show (x_cgroup sc (n_of_dec sz) (unhex arg) (of_str "4242") (unhex_opt content) (of_str "No such file or directory"))
   | ["rpname"; sz; tbl; pid] -> show (x_rpname sc (n_of_dec sz) (table tbl) (n_of_dec pid))
   | ["errcycle"; depth; nr; msg] -> show (x_errcycle sc (n_of_dec depth) (n_of_dec nr) (unhex msg))
